@@ -1,4 +1,5 @@
 import TsModel.Stage
+import TsModel.Sched
 /-!
 # C09 — async_take captures the state at call time and equals a synchronous take
 
@@ -45,6 +46,70 @@ theorem C09_witness_alias_prefix :
     let mem' : Mem := fun _ => [9, 9, 9, 9]
     resolve mem' (stageWith shouldCopyPreFix id true l mem) ≠ content id l mem := by
   decide
+
+/-! ### Hand-over point: why "memory at staging time" is "memory when async_take returned"
+
+`execute_write_reqs` returns its `PendingIOWork` exactly when `ready_for_staging` and `staging_tasks` are empty
+(scheduler.py:299, the `while` condition). In the pipeline model (`Ts.Sched`, the subject of C10/C11) that is the
+predicate below; from then on no request is ever staged again, so every buffer the background thread writes was
+staged before `async_take` returned. -/
+
+/-- `len(ready_for_staging) + len(staging_tasks) == 0` -/
+def handedOver (s : Ts.Sched.WState) : Prop :=
+  ∀ sl ∈ s.slots, sl.stage ≠ .rfs ∧ sl.stage ≠ .stg
+
+/-- After the hand-over no staging event is enabled (nothing is re-staged or staged late). -/
+theorem C09_no_staging_after_handover (cap : Nat) (s : Ts.Sched.WState) (h : handedOver s) (r : Nat)
+    (k : Ts.Sched.WKind) (hk : k = .stageStart ∨ k = .stageDone ∨ k = .stageFail) :
+    ∀ s', Ts.Sched.wstep cap s ⟨k, r⟩ ≠ .ok s' := by
+  intro s' hs
+  unfold Ts.Sched.wstep at hs
+  split at hs
+  · cases hs
+  · split at hs
+    · cases hs
+    · rename_i sl hget
+      have hm : sl ∈ s.slots := List.mem_of_getElem? hget
+      obtain ⟨h1, h2⟩ := h sl hm
+      have hne : sl.stage ≠ k.src := by
+        rcases hk with rfl | rfl | rfl <;> simp [Ts.Sched.WKind.src] <;> assumption
+      simp [hne] at hs
+
+/-- …and the hand-over condition is stable: every later scheduler action keeps it. -/
+theorem C09_handover_stable (cap : Nat) (s s' : Ts.Sched.WState) (e : Ts.Sched.WEvent)
+    (h : handedOver s) (hs : Ts.Sched.wstep cap s e = .ok s') : handedOver s' := by
+  unfold Ts.Sched.wstep at hs
+  split at hs
+  · cases hs
+  · split at hs
+    · cases hs
+    · rename_i sl hget
+      have hm : sl ∈ s.slots := List.mem_of_getElem? hget
+      obtain ⟨ha, hb⟩ := h sl hm
+      split at hs
+      · cases hs
+      · rename_i hsrc
+        split at hs
+        · cases hs
+        · split at hs
+          · -- failure event: slots unchanged
+            simp only [Except.ok.injEq] at hs
+            subst hs
+            exact h
+          · rename_i d hd
+            simp only [Except.ok.injEq] at hs
+            subst hs
+            intro x hx
+            rcases List.mem_or_eq_of_mem_set hx with hx | rfl
+            · exact h x hx
+            · have hsrc' : sl.stage = e.kind.src := by simpa using hsrc
+              cases hkind : e.kind <;> rw [hkind] at hsrc' hd <;>
+                simp only [Ts.Sched.WKind.src, Ts.Sched.WKind.dst, Option.some.injEq] at hsrc' hd
+              all_goals first
+                | exact absurd hsrc' ha
+                | exact absurd hsrc' hb
+                | (subst hd; simp)
+                | cases hd
 
 /-! Non-vacuity: the theorem's conclusion is non-trivial (staged bytes really are the old ones). -/
 example : resolve (fun _ => [9]) (stage id true ⟨0, .bufferProtocol, true⟩ (fun _ => [1, 2])) = [1, 2] := by decide
